@@ -389,6 +389,64 @@ fn run(c: &Case, all_bits: bool) -> CaseResult {
     Ok(v)
 }
 
+// ---------------------------------------------------------------------------
+// proofs whose encoding ends in zero bytes: dropping the zero tail changes the bytes but not the
+// value a lenient reader would decode for the last element
+
+#[derive(Clone, Debug, Serialize, Deserialize)]
+struct TailCase {
+    knobs: Knobs,
+    wseed: u64,
+    poseidon: bool,
+}
+
+fn zero_tail(c: &TailCase) -> CaseResult {
+    // small circuits: the search proves a few hundred times
+    let mut kn = c.knobs.clone();
+    kn.k_extra = 0;
+    kn.lookups.clear();
+    kn.ops.truncate(2);
+    let spec = expand(&kn);
+    if spec.k > 5 {
+        return Ok(Verdict::trivial("circuit-too-large-for-the-search"));
+    }
+    let plan = build_plan(&spec, c.wseed);
+    let (pk, vk) = pv::keygen(&spec).map_err(|e| Failure::new("keygen-fails", format!("{e}; spec={spec:?}")))?;
+    let st = pv::statement(&vk, &spec, &[plan.instances.clone()], 0);
+    // the prover is randomised: search its rng seeds for a proof that ends in 0x00 (1 in 256)
+    let mut found = None;
+    for s in 0..1500u64 {
+        let proof = if c.poseidon {
+            let mut t = CircuitTranscript::<Poseidon>::init();
+            pv::prove(&pk, &spec, &[plan.clone()], 0, c.wseed ^ s, &mut t).map_err(|e| Failure::new("create_proof-fails", e))?;
+            t.finalize()
+        } else {
+            let mut t = CircuitTranscript::<Blake>::init();
+            pv::prove(&pk, &spec, &[plan.clone()], 0, c.wseed ^ s, &mut t).map_err(|e| Failure::new("create_proof-fails", e))?;
+            t.finalize()
+        };
+        if proof.last() == Some(&0) {
+            found = Some(proof);
+            break;
+        }
+    }
+    let Some(proof) = found else { return Ok(Verdict::trivial("no-proof-ending-in-zero-found")) };
+    match verify_with(&vk, spec.k, &st, &proof, c.poseidon) {
+        Ok(Ok(())) => {}
+        other => return Err(Failure::new("control:honest-proof-rejected", format!("{other:?}; spec={spec:?}"))),
+    }
+    let zeros = proof.iter().rev().take_while(|b| **b == 0).count();
+    for cut in 1..=zeros + 1 {
+        let t = &proof[..proof.len() - cut];
+        match verify_with(&vk, spec.k, &st, t, c.poseidon) {
+            Ok(Err(_)) => {}
+            Ok(Ok(())) => return Err(Failure::new("accepted:truncate:zero-tail", format!("a proof of {} bytes ending in {zeros} zero byte(s) is ACCEPTED with its last {cut} byte(s) removed; spec={spec:?}", proof.len()))),
+            Err(p) => return Err(Failure::new(format!("panic:truncate:zero-tail:{}", vpcore::panic_signature(&p)), p)),
+        }
+    }
+    Ok(Verdict::nontrivial(format!("zero-tail:{}", zeros.min(2))).with(if c.poseidon { "poseidon" } else { "blake2b" }))
+}
+
 fn main() {
     vpcore::main("C03", "fault_enumeration", (1800, 14400), |p| {
         p.assume("a mutation that leaves verification accepting is a violation; verification failing for any reason (decode error, transcript mismatch, pairing check) is the required outcome");
@@ -401,6 +459,15 @@ fn main() {
             24,
             || strategy(p.tier.pick(6, 12)),
             move |c| run(c, all_bits),
+        );
+        p.sub_cfg(
+            "e1.zero-tail",
+            "for small E1 circuits the prover's rng seeds are searched (<= 1500) for an honest proof whose encoding ends in 0x00; that proof with its zero tail removed (1..tail+1 bytes) must be refused; non-trivial = such a proof was found",
+            p.tier.pick(12, 96),
+            12,
+            4,
+            || (knobs_strategy(3), any::<u64>(), any::<bool>()).prop_map(|(knobs, wseed, poseidon)| TailCase { knobs, wseed, poseidon }).boxed(),
+            zero_tail,
         );
     });
 }
